@@ -36,24 +36,23 @@ theorem Row.project_merge (μ μ0 : Row n) (pv : List Nat) (h : μ.compat (μ0.r
     cases e0 : μ0.get v <;> cases e1 : μ.get v <;> simp_all
   · simp [hp]
 
-/-- evalMultiset / evalProject: only the projected variables are pushed in, the projected solutions are handed
-    back together with the pushed-in bindings -/
-theorem pushdown_project {μ0 : Row n} {Ω XP : List (Row n)} (pv : List Nat)
-    (hp : XP.Perm (push (μ0.restrict pv) Ω)) :
-    (XP.map fun r => (r.restrict pv).merge μ0).Perm (push μ0 (Ω.map (·.restrict pv))) := by
-  refine (hp.map _).trans ?_
-  apply List.Perm.of_eq
-  simp only [push, List.map_filterMap, List.filterMap_map]
-  apply List.filterMap_congr
-  intro μ _
-  simp only [Function.comp, pushOne, Row.compat_restrict]
-  cases hc : (μ.restrict pv).compat μ0 with
-  | false => simp
-  | true =>
-    simp only [if_true, Option.map_some]
-    congr 1
-    apply Row.project_merge
-    rw [Row.compat_restrict]; exact hc
+theorem joinL_singleton (μ0 : Row n) : ∀ X : List (Row n), joinL X [μ0] = push μ0 X
+  | [] => rfl
+  | x :: X => by
+    have ih := joinL_singleton μ0 X
+    simp only [joinL, push, List.flatMap_cons, List.filterMap_cons, List.filterMap_nil] at ih ⊢
+    rw [ih]
+    simp only [pushOne]
+    cases hc : x.compat μ0 with
+    | false => simp
+    | true => simp [Row.merge_comm_of_compat hc]
+
+/-- evalMultiset: the sub-select is evaluated without the outer bindings (`ctx.clean()`), projected, and joined
+    with the current solution afterwards (`_join(…, [ctx.solution()])`) -/
+theorem pushdown_project {μ0 : Row n} {Ω XP : List (Row n)} (pv : List Nat) (hp : XP.Perm Ω) :
+    (joinL (XP.map (·.restrict pv)) [μ0]).Perm (push μ0 (Ω.map (·.restrict pv))) := by
+  refine (joinL_perm (hp.map _) (List.Perm.refl _)).trans ?_
+  exact List.Perm.of_eq (joinL_singleton μ0 _)
 
 /-! ### MINUS -/
 
@@ -87,16 +86,72 @@ theorem Row.disjoint_congr_right {a a' y : Row n} (h : ∀ v, (y.get v).isSome =
       · left; rw [h v (by simp [hy])]; exact h1
       · rw [hy] at h1; cases h1
 
-/-- evalMinus: right side without pushed-in bindings, test on the left solution's own bindings -/
-theorem pushdown_minus {μ0 : Row n} {A B XA XB : List (Row n)} {ann mustA mayA mayB : List Nat}
+theorem Row.restrict_of_bounds {y : Row n} {vs : List Nat} (h : ∀ v, (y.get v).isSome = true → v ∈ vs) :
+    y.restrict vs = y := by
+  apply Row.ext_get
+  intro v
+  rw [Row.get_restrict]
+  split
+  · rfl
+  · next hv =>
+    cases hy : y.get v with
+    | none => rfl
+    | some t => exact absurd (h v (by simp [hy])) hv
+
+/-- `remember` with an exact annotation gives back the left solution on the relevant variables -/
+theorem restrict_scope {μ0 μ : Row n} {rel ann must may : List Nat}
+    (hs : scopeOK rel ann must may = true) (hb : BoundsOK μ must may) :
+    ∀ v ∈ rel, ((μ0.merge μ).restrict ann).get v = μ.get v := by
+  intro v hv
+  simp only [scopeOK, List.all_eq_true, Bool.and_eq_true, Bool.or_eq_true, Bool.not_eq_eq_eq_not,
+    Bool.not_true, List.contains_eq_mem, decide_eq_true_eq, decide_eq_false_iff_not] at hs
+  obtain ⟨h1, h2⟩ := hs v hv
+  rw [Row.get_restrict, Row.get_merge]
+  by_cases hann : v ∈ ann
+  · have hm : v ∈ must := by
+      rcases h1 with h | h
+      · exact absurd hann h
+      · exact h
+    have := hb.1 v hm
+    cases hμ : μ.get v with
+    | none => rw [hμ] at this; cases this
+    | some y => simp [hann]
+  · have hnm : v ∉ may := by
+      rcases h2 with h | h
+      · exact h
+      · exact absurd h hann
+    have : μ.get v = none := by
+      cases hμ : μ.get v with
+      | none => rfl
+      | some y => exact absurd (hb.2 v (by simp [hμ])) hnm
+    simp [hann, this]
+
+/-- evalMinus: right side without pushed-in bindings, each side compared on the variables it binds itself
+    (`x.remember(p1._vars)`, `y.remember(p2._vars)`) -/
+theorem pushdown_minus {μ0 : Row n} {A B XA XB : List (Row n)} {vs mustA mayA mayB : List Nat}
+    {p2vars : Option (List Nat)}
     (ha : XA.Perm (push μ0 A)) (hb : XB.Perm B)
-    (hs : scopeOK mayB ann mustA mayA = true) (hba : ∀ μ ∈ A, BoundsOK μ mustA mayA)
-    (hbb : ∀ y ∈ B, ∀ v, (y.get v).isSome = true → v ∈ mayB) :
-    (XA.filter fun x => XB.all fun y => !((x.forget μ0 ann).compat y) || (x.forget μ0 ann).disjoint y).Perm
+    (hs : scopeOK mayB vs mustA mayA = true) (hba : ∀ μ ∈ A, BoundsOK μ mustA mayA)
+    (hbb : ∀ y ∈ B, ∀ v, (y.get v).isSome = true → v ∈ mayB)
+    (hp2 : ∀ vs2, p2vars = some vs2 → ∀ v ∈ mayB, v ∈ vs2) :
+    (XA.filter fun x => (XB.map fun y => y.rememberOpt p2vars).all fun y =>
+        !((x.rememberOpt (some vs)).compat y) || (x.rememberOpt (some vs)).disjoint y).Perm
       (push μ0 (minusBag A B)) := by
+  have hB : (XB.map fun y => y.rememberOpt p2vars).Perm B := by
+    refine (hb.map _).trans ?_
+    apply List.Perm.of_eq
+    conv => rhs; rw [← List.map_id B]
+    apply List.map_congr_left
+    intro y hy
+    cases p2vars with
+    | none => rfl
+    | some vs2 =>
+      simp only [Row.rememberOpt, id]
+      exact Row.restrict_of_bounds (fun v hv => hp2 vs2 rfl v (hbb y hy v hv))
   refine (ha.filter _).trans ?_
   apply List.Perm.of_eq
-  simp only [push, minusBag, List.filter_filterMap, List.filterMap_filter, hb.all_eq]
+  simp only [hB.all_eq]
+  simp only [push, minusBag, List.filter_filterMap, List.filterMap_filter, Row.rememberOpt]
   apply List.filterMap_congr
   intro μ hμ
   unfold pushOne
@@ -104,12 +159,12 @@ theorem pushdown_minus {μ0 : Row n} {A B XA XB : List (Row n)} {ann mustA mayA 
   | false => simp
   | true =>
     simp only [if_true, Option.filter_some]
-    have key : (B.all fun y => !(((μ0.merge μ).forget μ0 ann).compat y) || ((μ0.merge μ).forget μ0 ann).disjoint y) =
+    have key : (B.all fun y => !(((μ0.merge μ).restrict vs).compat y) || ((μ0.merge μ).restrict vs).disjoint y) =
         (B.all fun y => !(μ.compat y) || μ.disjoint y) := by
       rw [Bool.eq_iff_iff]
       simp only [List.all_eq_true]
-      have hag : ∀ y ∈ B, ∀ v, (y.get v).isSome = true → ((μ0.merge μ).forget μ0 ann).get v = μ.get v :=
-        fun y hy v hv => forget_scope hs (hba μ hμ) v (hbb y hy v hv)
+      have hag : ∀ y ∈ B, ∀ v, (y.get v).isSome = true → ((μ0.merge μ).restrict vs).get v = μ.get v :=
+        fun y hy v hv => restrict_scope hs (hba μ hμ) v (hbb y hy v hv)
       constructor
       · intro h y hy
         rw [← Row.compat_congr_right (hag y hy), ← Row.disjoint_congr_right (hag y hy)]
